@@ -222,11 +222,11 @@ func (l *Gpos6_1) encode() []byte {
 
 	res = append(res,
 		0, 1, // posFormat
-		byte(mark1CoverageOffset>>8), byte(mark1CoverageOffset),
-		byte(mark2CoverageOffset>>8), byte(mark2CoverageOffset),
+		byte(offs16(int(mark1CoverageOffset))>>8), byte(mark1CoverageOffset),
+		byte(offs16(int(mark2CoverageOffset))>>8), byte(mark2CoverageOffset),
 		byte(markClassCount>>8), byte(markClassCount),
-		byte(mark1ArrayOffset>>8), byte(mark1ArrayOffset),
-		byte(mark2ArrayOffset>>8), byte(mark2ArrayOffset),
+		byte(offs16(int(mark1ArrayOffset))>>8), byte(mark1ArrayOffset),
+		byte(offs16(int(mark2ArrayOffset))>>8), byte(mark2ArrayOffset),
 	)
 
 	res = append(res, l.Mark1Cov.Encode()...)
@@ -239,7 +239,7 @@ func (l *Gpos6_1) encode() []byte {
 	for _, rec := range l.Mark1Array {
 		res = append(res,
 			byte(rec.Class>>8), byte(rec.Class),
-			byte(offs>>8), byte(offs),
+			byte(offs16(int(offs))>>8), byte(offs),
 		)
 		offs += 6
 	}
@@ -258,7 +258,7 @@ func (l *Gpos6_1) encode() []byte {
 				continue
 			}
 			res = append(res,
-				byte(offs>>8), byte(offs),
+				byte(offs16(int(offs))>>8), byte(offs),
 			)
 			offs += 6
 		}
